@@ -69,7 +69,7 @@ def pure_locals(fn):
     params = {a.arg for a in fn.args.args}
     def pure(v):
         for y in ast.walk(v):
-            if isinstance(y, ast.Call) and not (isinstance(y.func, ast.Name) and y.func.id in ("str", "len", "int", "float", "abs", "min", "max", "isinf")):
+            if isinstance(y, ast.Call) and not (isinstance(y.func, ast.Name) and y.func.id in ("str", "len", "int", "float", "abs", "min", "max", "isinf", "sum")):
                 return False
             if isinstance(y, (ast.Lambda, ast.ListComp, ast.GeneratorExp, ast.DictComp, ast.SetComp, ast.Yield)):
                 return False
@@ -94,6 +94,27 @@ def inline_locals(fn, node, depth=4):
         if getattr(fn, "_module", None) is not None:
             n._module = fn._module
     return node
+
+
+def items_as_lookups(comp):
+    """a structural copy of a comprehension in which `for k, v in D.items()` (D without calls, k and v plain names) reads `for k in D` with v spelled D[k]:
+    the two iterate the same keys in the same order and bind the same values"""
+    if not isinstance(comp, (ast.DictComp, ast.ListComp, ast.SetComp, ast.GeneratorExp)):
+        return comp
+    comp = clone(comp)
+    for g in comp.generators:
+        if isinstance(g.iter, ast.Call) and isinstance(g.iter.func, ast.Attribute) and g.iter.func.attr == "items" and not g.iter.args and not g.iter.keywords \
+                and isinstance(g.target, ast.Tuple) and len(g.target.elts) == 2 and all(isinstance(t, ast.Name) for t in g.target.elts) \
+                and not any(isinstance(x, ast.Call) for x in ast.walk(g.iter.func.value)):
+            k, v = g.target.elts[0].id, g.target.elts[1].id
+            d = g.iter.func.value
+            if k == v:
+                continue
+            look = ast.Subscript(value=clone(d), slice=ast.Name(id=k, ctx=ast.Load()), ctx=ast.Load())
+            g.target = ast.Name(id=k, ctx=ast.Store())
+            g.iter = d
+            comp = _Subst({v: look}).visit(comp)
+    return ast.fix_missing_locations(comp)
 
 
 def temporaries_free(fn):
